@@ -370,6 +370,36 @@ def check_completed_nodes(nodes, rl) -> list[tuple[str, str]]:
 # ----------------------------------------------------------------------------------------
 # engine runs
 
+FLAKY_COMMANDS = {"FlakyA": 1, "FlakyC": 3}   # name -> iteration (1-based) in which the exec function raises
+
+
+def flaky_engine_run(pcode: str):
+    """`EngineRun` whose UOD additionally has commands whose exec function raises while running
+    (`_execute_uod_command` then cancels the command as clean-up and `_execute_command` marks it failed).
+    The extra commands are added by wrapping `UodBuilder.build` for the duration of the construction."""
+    from harness.engine_run import EngineRun
+    from openpectus.lang.exec.uod import UodBuilder
+
+    def make_exec(name: str, at: int):
+        def exec_fn(cmd, **kvargs):
+            cmd._verif_iter = getattr(cmd, "_verif_iter", 0) + 1
+            if cmd._verif_iter >= at:
+                raise ValueError(f"{name} fails in iteration {at}")
+        return exec_fn
+    orig = UodBuilder.build
+
+    def build(self):
+        for name, at in FLAKY_COMMANDS.items():
+            if name not in self.command_factories:
+                self.with_command(name=name, exec_fn=make_exec(name, at))
+        return orig(self)
+    UodBuilder.build = build
+    try:
+        return EngineRun(pcode)
+    finally:
+        UodBuilder.build = orig
+
+
 def run_case(case: dict, guard: bool = True, with_ops: bool = True) -> dict:
     """Returns {'lines','outs' (tracking stream), 'fails': [(key, detail, tick)], 'stats': {...}}."""
     from harness.engine_run import EngineRun
@@ -380,8 +410,8 @@ def run_case(case: dict, guard: bool = True, with_ops: bool = True) -> dict:
     fails: list[tuple[str, str, int]] = []
     seen_keys: set[str] = set()
     stats = {"ticks": 0, "items": 0, "cancel_ok": 0, "force_ok": 0, "late_requests": 0, "edits_ok": 0, "injects_ok": 0,
-             "conclusive_items": 0, "runlogs": 0}
-    run = EngineRun(case["pcode"])
+             "conclusive_items": 0, "runlogs": 0, "failed_items": 0}
+    run = flaky_engine_run(case["pcode"])
     edited = False
 
     def fail(key: str, detail: str, tick: int):
@@ -407,6 +437,7 @@ def run_case(case: dict, guard: bool = True, with_ops: bool = True) -> dict:
         for key, detail in check_completed_nodes(run.program_nodes(), rl):
             fail(key, detail, tick)
         stats["items"] = max(stats["items"], len(rl.items))
+        stats["failed_items"] = max(stats["failed_items"], sum(1 for it in rl.items if str(it.state) == "failed"))
         stats["conclusive_items"] = max(stats["conclusive_items"],
                                         sum(1 for it in rl.items if str(it.state) in CONCLUSIVE))
         return rl
